@@ -308,7 +308,7 @@ def check_step(cfg, hist_, ms, op, max_born):
             o = ms.objs.get(n)
             if o is None:
                 continue
-            if pre_wasdel.get(n) and o.state in (T, PE):
+            if pre_wasdel.get(n) and not o.wasdel and o.state != D:
                 problems[i] = (
                     "stale was_deleted: an object INSERTed and DELETEd inside a rolled-back transaction keeps "
                     "InstanceState._deleted after it became transient; later operations treat it as a deleted object",
@@ -445,6 +445,7 @@ def run_shard(shard, tier, rec):
                 depth,
                 jobs,
                 warm=[(cfg, WARM)],
+                ctx=dict(world=world, eoc=eoc, max_born=max_born),
             )
             rec.count("depth completed %s eoc=%s" % (world, eoc), d)
     finally:
@@ -469,6 +470,8 @@ def _tuplify(x):
 
 
 def replay(case):
+    if case.get("kind") == "hang":  # recorded by the per-step watchdog: re-run the step without a limit
+        case = dict(case.get("ctx") or {}, history=case["history"], op=case["op"])
     gc.disable()
     try:
         cfg = make_cfg(case["world"], case["eoc"])
